@@ -61,7 +61,7 @@ bool Executor::known_skip(const char* prop, const char* oracle, const std::map<s
   for (auto& k : opt_.known) {
     if (!k.skip || k.status == "fixed" || k.prop != prop || k.oracle != oracle) continue;
     bool all = true;
-    for (auto& w : k.when) { auto it = ctx.find(w.first); if (it == ctx.end() || it->second != w.second) { all = false; break; } }
+    for (auto& w : k.when) { auto it = ctx.find(w.first); if (it == ctx.end() || (std::string("|") + w.second + "|").find("|" + it->second + "|") == std::string::npos) { all = false; break; } }
     if (all) { count(std::string("skipped_known:") + prop + "/" + oracle); return true; }
   }
   return false;
@@ -87,6 +87,7 @@ std::map<std::string, std::string> Executor::ctx_of(Obj& o) {
   { int m = s.getInt(P::i("solvemode")); c["exact"] = (m == 2 || (m == 1 && !(s.getReal(P::r("feastol")) >= 1e-9 && s.getReal(P::r("opttol")) >= 1e-9))) ? "1" : "0"; }
   c["update"] = s.getInt(P::i("factor_update_type")) == 0 ? "ETA" : "FT";
   c["rowboundflips"] = s.getBool(P::b("rowboundflips")) ? "1" : "0";
+  c["ratiotester"] = std::to_string(s.getInt(P::i("ratiotester")));
   return c;
 }
 
